@@ -44,6 +44,16 @@ class Fn:
                 self.nodes[e['i']] = e
                 self.block_of[e['i']] = b['id']
                 self.pos_of[e['i']] = pos
+        # `if (a || (b && c))`: the terminator of the last short-circuit block reports the whole
+        # logical expression; the condition actually branched on is its right-most operand.
+        for b in f.get('blocks', []):
+            t = b.get('term')
+            if t and 'cond' not in t and isinstance(t.get('condx'), dict):
+                x = t['condx']
+                while isinstance(x, dict) and x.get('k') == 'BinaryOperator' and x.get('op') in ('&&', '||'):
+                    x = x['c'][1]
+                if isinstance(x, int):
+                    t['cond'] = x
         self._preds = None
         self._dom = None
         self._pdom = None
